@@ -33,7 +33,8 @@ def run(ctx):
                         solve_time=16 * dt - dt / 2, screening=True))
     if not ctx.quick:
         physics += [
-            dict(label="tee/ramp", dev="bar", current=5.0, current_ramp=0.2, field=0.3, field_ramp=0.3, adaptive=True, dt=dt, dt_max=0.05, solve_time=0.6),
+            dict(label="bar/ramp", dev="bar", current=10.0, current_ramp=1.0, field=1.5, field_ramp=1.0, adaptive=True, dt=dt, dt_max=2.0,
+                 window=5, solve_time=5.0),
             dict(label="bar/thermal", dev="bar", current=3.0, field=0.4, adaptive=False, dt=dt, solve_time=12 * dt - dt / 2, skip_time=5 * dt - dt / 2),
         ]
     recordings = [dict(k=1), dict(k=2, out="temp"), dict(k=3, probes=0), dict(k=5, probes=3, progress=3),
